@@ -868,7 +868,8 @@ func (c *vfPoolCase) submit(txs []*vfTx, local bool) {
 			case c.unsettled:
 				o.Stat("pool.reject-changed-pool.unsettled(skipped)")
 			case names[0] == "replace" && full && len(gone) > 0 && vfAllRemote(gone, localBefore):
-				// F12: room was made before the replacement test
+				// the shape of finding F12 (fixed: add tests replacement eligibility before it makes
+				// room) - kept as its own signature, a violation like any other change
 				o.Viol("pool-reject-changed-pool:replace-underpriced-after-discard", fmt.Sprintf("%s: evicted %s; before %s after %s", ctx, vfIds(gone), before.text, after.text))
 			default:
 				o.Viol("pool-reject-changed-pool:"+names[0], fmt.Sprintf("%s: before %s after %s", ctx, before.text, after.text))
@@ -885,12 +886,10 @@ func (c *vfPoolCase) submit(txs []*vfTx, local bool) {
 				o.Viol("pool-replaced-tx-still-present", fmt.Sprintf("%s: old %d", ctx, old.id))
 			}
 			if !c.bumpOK(old, t) {
-				if full && !localBefore[old.sender] {
-					// the predecessor was the cheapest remote and was discarded to make room
-					o.Stat("pool.same-nonce-successor-after-price-eviction")
-				} else {
-					o.Viol("pool-replacement-without-bump", fmt.Sprintf("%s: old %d price %d new price %d bump %d", ctx, old.id, old.price, t.price, c.cfg.PriceBump))
-				}
+				// (before the repair of F12 a remote transaction could follow a same-nonce predecessor
+				// without the bump when that predecessor had just been discarded to make room; the
+				// eligibility test now comes first)
+				o.Viol("pool-replacement-without-bump", fmt.Sprintf("%s: old %d price %d new price %d bump %d", ctx, old.id, old.price, t.price, c.cfg.PriceBump))
 			}
 			o.Stat("pool.replacement")
 		}
@@ -1239,8 +1238,11 @@ func (c *vfPoolCase) cfgText() string {
 		c.cfg.AccountSlots, c.cfg.GlobalSlots, c.cfg.AccountQueue, c.cfg.GlobalQueue, nl, c.chainText())
 }
 
-// vfF12Case is the directed scenario of finding F12 (DESIGN.md section 5): a pool of four slots
-// holding prices 10, 2, 3, 4; re-submitting the price-10 sender's nonce at price 10.
+// vfF12Case is the directed scenario of finding F12 (DESIGN.md section 5; fixed), kept as a
+// regression case that must show NO pool change: a pool of four slots holding prices 10, 2, 3, 4;
+// re-submitting the price-10 sender's nonce at price 10 (an under-priced same-nonce replacement
+// arriving at a full pool) must be refused with "replacement transaction underpriced" and leave
+// every other account's transaction where it is.
 func vfF12Case(o *vfOut, idx int) {
 	cfg := DefaultTxPoolConfig
 	cfg.Journal = ""
@@ -1251,7 +1253,12 @@ func vfF12Case(o *vfOut, idx int) {
 		c.submit([]*vfTx{c.mk(a, 0, p, vfBaseGas, 0, 0, 0, false)}, false)
 		c.opn++
 	}
-	c.submit([]*vfTx{c.mk(0, 0, 10, vfBaseGas, 0, 0, 0, false)}, false)
+	before := c.snap().text
+	t5 := c.mk(0, 0, 10, vfBaseGas, 0, 0, 0, false)
+	c.submit([]*vfTx{t5}, false)
+	if after := c.snap().text; after != before || before != "P=0:1;1:2;2:3;3:4 Q=- N=1,1,1,1 S=4/0" {
+		o.Viol("pool-f12-regression", fmt.Sprintf("pool case %d: under-priced replacement (tx %d, price 10 over price 10) at a full pool: before %s after %s", idx, t5.id, before, after))
+	}
 	o.Stat("pool.directed-f12-scenario")
 	o.Case("f12", true)
 }
